@@ -18,7 +18,7 @@ EXPLANATION = (
 ASSUMPTIONS = ["at most one task joins a given pika::thread at a time (API contract)",
                "thread::start_thread is only called from constructors (id_ written before the handle is shared)"]
 THOROUGH_CONFIGS = [["-UNDEBUG", "-DPIKA_DEBUG"]]
-FLOORS = {"C13.R1": 4, "C13.R2": 3, "C13.R3": 6, "C13.R4": 7, "C13.R5": 2, "C13.R6": 4, "C13.R7": 5, "C13.R8": 4, "C13.R9": 2}
+FLOORS = {"C13.R1": 4, "C13.R2": 3, "C13.R3": 6, "C13.R4": 7, "C13.R5": 2, "C13.R6": 4, "C13.R7": 5, "C13.R8": 4, "C13.R9": 2, "C13.R10": 3}
 
 TD = "pika::threads::detail::thread_data"
 
@@ -365,6 +365,46 @@ def run(rep, tier):
             rep.bad("C13.R5", it, loc_of(w[0][2]), "interrupt", "interrupt must store the request under the lock and refuse (throw) when interruption is disabled")
     else:
         rep.bad("C13.R5", it, it.loc, "interrupt-write", "interrupt() must store the request exactly once")
+
+    # ---- R10: the wake-up half of interrupt()
+    rep.rule("C13.R10", "K7 (delivery to a blocked target): interrupt_thread, after storing the request (thread_data::interrupt), always goes on to set_thread_state(id, pending, "
+             "abort): set_thread_state is what waits out the window in which the target has passed the interruption check of its blocking wait but is still marked active, and "
+             "what wakes a suspended target with 'abort'. A path that stores the request and returns without it leaves a target that is just about to block asleep for ever "
+             "(interrupt(); join(); hangs). thread::interrupt (both overloads) and this_thread::interrupt reach interrupt_thread")
+    HI = facts(rep, lib("threading_base", "src/thread_helpers.cpp"), [r"^pika::threads::detail::interrupt_thread$"])
+    its = [f for f in HI.find(r"^pika::threads::detail::interrupt_thread$") if f.file.endswith(".cpp")]
+    if len(its) != 1:
+        raise AnalysisBroken("interrupt_thread: expected one out-of-line definition, found %d" % len(its))
+    itf = its[0]
+    st = [(b, i, e) for b, i, e in itf.all_events() if e.get("k") == "call" and callee_of(e) == TD + "::interrupt"]
+    if not st:
+        raise AnalysisBroken("interrupt_thread: the call of thread_data::interrupt was not found")
+
+    def wake(e):
+        if not (e.get("k") == "call" and callee_short(e) == "set_thread_state" and len(e.get("args", [])) >= 3):
+            return False
+        return T(e["args"][1]).endswith("thread_schedule_state::pending") and T(e["args"][2]).endswith("thread_restart_state::abort")
+    for b, i, e in st:
+        if not always_followed_by(itf, (b, i), wake):
+            rep.ok("C13.R10", itf, "after storing the request every normal path reaches set_thread_state(id, pending, abort)")
+        else:
+            anyw = any(wake(x) for _, _, x in itf.all_events())
+            rep.bad("C13.R10", itf, loc_of(e), "interrupt-no-wakeup", "interrupt_thread stores the request at %s but %s: a target that has already passed the interruption check of its "
+                    "blocking wait (still marked active) or that is suspended is never woken; interrupt(); join(); hangs" % (
+                        loc_of(e), "returns on some path without set_thread_state(id, pending, abort)" if anyw else "never calls set_thread_state(id, pending, abort)"))
+    for q, Fx in ((r"pika::thread::interrupt", F), (r"pika::this_thread::interrupt", None)):
+        if Fx is None:
+            Fx = facts(rep, lib("threading", "src/thread.cpp"), [r"^pika::this_thread::interrupt$"])
+        fs = [f for f in Fx.find("^" + q + "$") if f.file.endswith(".cpp")]
+        if not fs:
+            raise AnalysisBroken("%s not found" % q)
+        for fn in fs:
+            cs = [(b, i, e) for b, i, e in fn.all_events() if e.get("k") == "call" and callee_of(e) == "pika::threads::detail::interrupt_thread"]
+            from engine.kinds import bypass_path
+            if cs and bypass_path(fn, lambda e: e.get("k") == "call" and callee_of(e) == "pika::threads::detail::interrupt_thread") is None:
+                rep.ok("C13.R10", fn, "%s hands the request to interrupt_thread on every path" % fn.qname)
+            else:
+                rep.bad("C13.R10", fn, fn.loc, "interrupt-not-forwarded:" + fn.qname, "%s does not reach threads::detail::interrupt_thread on every path" % fn.qname)
 
     # ---- R6
     exempt6 = {"start_thread": "called from constructors only, before the handle is shared",
